@@ -21,3 +21,31 @@ package orderbuffer
 //@   loop 1 invariant forall i in 0..left :: rb.Buffer[i].Round <= roundNumber
 //@   loop 1 invariant forall i in right..len(rb.Buffer) :: rb.Buffer[i].Round > roundNumber
 //@   loop 1 decreases right - left
+
+//@ func (*OrderBuffer).Add
+//@   prop C46
+//@   requires rb != nil && wfBuf(rb) && held(rb.mu) == 0
+//@   ensures result
+//@   ensures sortedBuf(rb)
+//@   ensures len(rb.Buffer) <= rb.max && rb.max == old(rb.max)
+//@   ensures len(rb.Buffer) == old(len(rb.Buffer)) || len(rb.Buffer) == min(old(len(rb.Buffer)) + 1, rb.max)
+//@   lock-balanced rb.mu
+
+//@ func (*OrderBuffer).First
+//@   prop C46
+//@   requires rb != nil && wfBuf(rb) && held(rb.mu) == 0
+//@   ensures result1 <==> len(rb.Buffer) > 0
+//@   ensures result1 ==> result0 == rb.Buffer[0]
+//@   ensures result1 ==> forall i in 0..len(rb.Buffer) :: result0.Round <= rb.Buffer[i].Round
+//@   modifies rb.mu
+//@   lock-balanced rb.mu
+
+//@ func (*OrderBuffer).Pop
+//@   prop C46
+//@   requires rb != nil && wfBuf(rb) && held(rb.mu) == 0
+//@   ensures sortedBuf(rb) && len(rb.Buffer) <= rb.max && rb.max == old(rb.max)
+//@   ensures old(len(rb.Buffer)) == 0 ==> !result1 && len(rb.Buffer) == 0
+//@   ensures old(len(rb.Buffer)) > 0 ==> result1 && result0 == old(rb.Buffer[0]) && len(rb.Buffer) == old(len(rb.Buffer)) - 1
+//@   ensures forall i in 0..len(rb.Buffer) :: rb.Buffer[i] == old(rb.Buffer[i+1]) && result0.Round <= rb.Buffer[i].Round
+//@   modifies rb.mu, rb.Buffer
+//@   lock-balanced rb.mu
